@@ -189,6 +189,12 @@ func exec(op string) (res string) {
 		return showFor(curCluster.ReplicaMap(simpleClass, simpleOpts(w[1])), w[2:], "[]")
 	case "snts":
 		return showFor(curCluster.ReplicaMap(ntsClass, ntsOpts(w[1])), w[2:], "[]")
+	case "resetord":
+		return ordReset(w)
+	case "okey", "xokey":
+		return ordKeys(w)
+	case "oagree":
+		return ordAgreeOp(w)
 	case "resetpol":
 		return polReset(w)
 	case "pev":
@@ -201,7 +207,7 @@ func exec(op string) (res string) {
 		return polSettled()
 	case "prepl", "xprepl", "ppick", "spick":
 		return polQuery(w)
-	case "strategy":
+	case "strategy", "sstrategy":
 		cls, err := vh.UnHex(w[1])
 		if err != nil {
 			return "bad-op"
@@ -598,16 +604,26 @@ func (ru *run) fixed() {
 	ru.cluster(mk("r", node{1, 1, 1, b(7)}), []string{"1=1", "1=3", "2=1", "-"}, []int{0, 1, 3}, 100)
 }
 
+// the strategy classes Cassandra ships: for them getStrategy's answer is specified (Spec.strategy, theorem C10_strategy)
+var shippedClasses = map[string]bool{simpleClass: true, "SimpleStrategy": true, ntsClass: true, "NetworkTopologyStrategy": true,
+	"org.apache.cassandra.locator.LocalStrategy": true, "LocalStrategy": true}
+
 func (ru *run) strategies(n int) {
 	r := ru.r
-	classes := []string{simpleClass, "SimpleStrategy", ntsClass, "NetworkTopologyStrategy", "org.apache.cassandra.locator.LocalStrategy",
+	classes := []string{simpleClass, "SimpleStrategy", ntsClass, "NetworkTopologyStrategy", "org.apache.cassandra.locator.LocalStrategy", "LocalStrategy",
+		simpleClass, ntsClass, ntsClass,
 		"EverywhereStrategy", "", "simplestrategy", "SimpleStrategyNetworkTopologyStrategy", "xNetworkTopologyStrategySimpleStrategy", "LocalStrategySimpleStrategy"}
-	keys := []string{"replication_factor", "class", "dc1", "dc2", "DC1", ""}
-	strs := []string{"3", "0", "-1", "+2", "abc", "", " 1", "007", "9223372036854775807", "9223372036854775808", "-9223372036854775808", "1_0", "-", "+", "-0", "12x", "٣"}
+	keys := []string{"replication_factor", "class", "dc1", "dc2", "DC1", "", "dc3", "replication_factor "}
+	strs := []string{"3", "0", "-1", "+2", "abc", "", " 1", "007", "9223372036854775807", "9223372036854775808", "-9223372036854775808", "1_0", "-", "+", "-0", "12x", "٣",
+		"3/1", "18446744073709551616", "00", "2147483648", "+0", "-00", "--1", "+-1", "1 ", "0x10", "1e1", "99999999999999999999999999"}
 	for i := 0; i < n; i++ {
 		cls := classes[r.Intn(len(classes))]
+		word := "strategy"
+		if shippedClasses[cls] {
+			word = "sstrategy"
+		}
 		var sb strings.Builder
-		sb.WriteString("strategy " + vh.Hex([]byte(cls)))
+		sb.WriteString(word + " " + vh.Hex([]byte(cls)))
 		perm := r.Intn(1 << uint(len(keys)))
 		for k, key := range keys {
 			if perm&(1<<uint(k)) == 0 {
@@ -621,6 +637,9 @@ func (ru *run) strategies(n int) {
 				v = "x:f"
 			case 3:
 				v = []string{"x:i64", "x:nil"}[r.Intn(2)]
+			case 4:
+				// Cassandra's own rendering of a number (Integer.toString): every magnitude
+				v = "s:" + vh.Hex([]byte(fmt.Sprint(r.U64()>>uint(r.Intn(64)))))
 			default:
 				v = "s:" + vh.Hex([]byte(strs[r.Intn(len(strs))]))
 			}
@@ -631,7 +650,11 @@ func (ru *run) strategies(n int) {
 		}
 		a := exec(sb.String())
 		k := strings.Fields(a)[0]
-		ru.out.Case(sb.String(), a, "strategy/"+k, true)
+		cl := "strategy/" + k
+		if word == "sstrategy" {
+			cl = "sstrategy(spec)/" + k
+		}
+		ru.out.Case(sb.String(), a, cl, true)
 	}
 }
 
@@ -708,6 +731,42 @@ func (ru *run) exhaustive(maxN int, sampleN4 int) {
 	}
 }
 
+// rings with EQUAL tokens (two nodes claim one token while a node is being replaced; a node listing a token twice):
+// Cassandra's placement is not defined for them, the driver must still not panic and not name a node twice
+// (C10_no_panic, C10_nts_nodup, C10_nts_bound, C10_simple_any_ring hold for every token list). At most 12 ring
+// entries: up to that size sort.Sort is an insertion sort, stable like the model's - the order among equal tokens
+// is then determined; only model-vs-code ops (ring construction, whole replica maps).
+func (ru *run) dupScenario() {
+	r := ru.r
+	part := []string{"m", "r", "o"}[r.Intn(3)]
+	n := 2 + r.Intn(4)
+	nDC := 1 + r.Intn(2)
+	dom := 2 + r.Intn(5) // few distinct token values: collisions
+	c := cluster{part: part, vnodes: true}
+	total := 0
+	for i := 0; i < n; i++ {
+		nd := node{id: i + 1, dc: 1 + r.Intn(nDC), rack: 1 + r.Intn(2)}
+		v := 1 + r.Intn(3)
+		for k := 0; k < v && total < 12; k++ {
+			nd.toks = append(nd.toks, big.NewInt(int64(10*r.Intn(dom))))
+			total++
+		}
+		c.nodes = append(c.nodes, nd)
+	}
+	ru.nClust++
+	ru.emit(c.resetOp(), "reset/"+part+"/equal-tokens", true)
+	for _, rf := range []int{1 + r.Intn(3), n + 1} {
+		a := ru.emit(fmt.Sprintf("simple %d", rf), "", true)
+		ru.out.Dist["simple/equal-tokens/"+classifyMap(a)]++
+		delete(ru.out.Dist, "")
+	}
+	for k := 0; k < 2; k++ {
+		a := ru.emit("nts "+genRfs(r, false), "", true)
+		ru.out.Dist["nts/equal-tokens/"+classifyMap(a)]++
+		delete(ru.out.Dist, "")
+	}
+}
+
 func main() {
 	mode, tier, path := vh.Args()
 	if mode == "replay" {
@@ -745,6 +804,14 @@ func main() {
 		ru.exhaustive(3, 1500)
 	} else {
 		ru.exhaustive(1, 60)
+	}
+	for i := 0; i < 200*mult; i++ {
+		ru.dupScenario()
+	}
+	// the ordered partitioner with ring tokens as Cassandra reports them, lookups for raw partition keys
+	ru.ordFixed()
+	for i := 0; i < 300*mult; i++ {
+		ru.ordScenario()
 	}
 	// the replica map as a function of the history of policy events
 	ru.polFixed()
